@@ -67,7 +67,7 @@ func (x *Exec) execInstr(fr *frame, ins ssa.Instruction, st *State, reach string
 			fr.vals[t] = sval{t: "(select " + xv.t + " " + iv.t + ")"}
 		case *types.Basic: // string
 			x.oblige("safety", "index:string", reach, "(and (<= 0 "+iv.t+") (< "+iv.t+" (s_len "+xv.t+")))", "string index in range", t.Pos())
-			fr.vals[t] = sval{t: x.define("ch", "Int", "(select (select "+st.get("BM")+" (s_base "+xv.t+")) (+ (s_off "+xv.t+") "+iv.t+"))")}
+			fr.vals[t] = sval{t: x.define("ch", "Int", "(select (select "+st.get("BM")+" (s_base "+xv.t+")) (idx (s_off "+xv.t+") "+iv.t+"))")}
 			x.assume(reach, "(and (<= 0 "+fr.vals[t].t+") (<= "+fr.vals[t].t+" 255))")
 		default:
 			return x.unsupported(fr, ins, st, "index of "+t.X.Type().String())
@@ -146,7 +146,7 @@ func (x *Exec) execInstr(fr *frame, ins ssa.Instruction, st *State, reach string
 		}
 		// string index
 		x.oblige("safety", "index:string", reach, "(and (<= 0 "+iv.t+") (< "+iv.t+" (s_len "+xv.t+")))", "string index in range", t.Pos())
-		fr.vals[t] = sval{t: x.define("ch", "Int", "(select (select "+st.get("BM")+" (s_base "+xv.t+")) (+ (s_off "+xv.t+") "+iv.t+"))")}
+		fr.vals[t] = sval{t: x.define("ch", "Int", "(select (select "+st.get("BM")+" (s_base "+xv.t+")) (idx (s_off "+xv.t+") "+iv.t+"))")}
 		x.assume(reach, "(and (<= 0 "+fr.vals[t].t+") (<= "+fr.vals[t].t+" 255))")
 		return st
 	case *ssa.MapUpdate:
@@ -357,7 +357,7 @@ func (x *Exec) execIndexAddr(fr *frame, t *ssa.IndexAddr, st *State, reach strin
 	switch u := t.X.Type().Underlying().(type) {
 	case *types.Slice:
 		x.oblige("safety", "index:slice", reach, "(and (<= 0 "+iv.t+") (< "+iv.t+" (s_len "+xv.t+")))", "slice index in range", t.Pos())
-		fr.vals[t] = sval{t: "0", loc: &Loc{Kind: "elem", Comp: x.so.elemComp(u.Elem()), Base: "(s_base " + xv.t + ")", Idx: "(+ (s_off " + xv.t + ") " + iv.t + ")", ElemT: u.Elem()}}
+		fr.vals[t] = sval{t: "0", loc: &Loc{Kind: "elem", Comp: x.so.elemComp(u.Elem()), Base: "(s_base " + xv.t + ")", Idx: "(idx (s_off " + xv.t + ") " + iv.t + ")", ElemT: u.Elem()}}
 		return st
 	case *types.Pointer:
 		at := u.Elem().Underlying().(*types.Array)
